@@ -155,8 +155,27 @@ def _two_valued(facts, fx, op):
     return bool(a) and len(a['variants']) == 2
 
 
-def build(facts, root_key, max_depth=MAX_DEPTH, inline=True, no_inline=()):
+_default_cache = {}
+
+
+def _default_body(facts, tr, meth):
+    k = (id(facts), tr, meth)
+    if k not in _default_cache:
+        body = None
+        t = facts.traits.get(tr)
+        if t:
+            for m in t['methods']:
+                if m['n'] == meth and m.get('default') and m.get('key') in facts.fns:
+                    overridden = any(any(f['n'] == meth for f in im.get('fns', [])) for im in facts.impls_of(tr))
+                    if not overridden:
+                        body = m['key']
+        _default_cache[k] = body
+    return _default_cache[k]
+
+
+def build(facts, root_key, max_depth=MAX_DEPTH, inline=True, no_inline=(), defaults=False):
     g = Graph(facts, root_key)
+    g.defaults = defaults
     fn = facts.fns[root_key]
     fx = fx_of(facts, fn)
     amap = {}
@@ -286,6 +305,9 @@ def _call(g, fx, key, ctx, bi, t, cur, starts, unws, tr, depth, max_depth, do_in
             if cd and cd in facts.fns:
                 body_key = cd
                 rustcall = True
+        elif getattr(g, 'defaults', False) and callee.get('tr') and callee.get('n'):
+            # a provided (default) method of a trait of this crate that no impl overrides: the call runs the default body
+            body_key = _default_body(facts, callee['tr'], callee['n'])
     elif fnptr is not None:
         p = strip(fnptr)
         if p[0] == 'fn' and p[1] in facts.fns:
